@@ -481,7 +481,8 @@ func c04Requests() (qs []c04Req) {
 		}
 	}
 	// host names made of hexadecimal digits and dots look like IP addresses to a cheap test
-	for _, h := range []string{"cafe.de", "dead.beef", "bad.cc", "fe80::1", "::1"} {
+	// ... and names that a "/label." pattern is written for, and bracketed or half-bracketed address literals
+	for _, h := range []string{"cafe.de", "dead.beef", "bad.cc", "fe80::1", "::1", "ads1.example.org", "ad-server.x.com", "www.a.example.org", "1.example.org", "[::1]", "[::1", "[dead.beef", "::1]", "1.2.3.4", "a_b.example.org"} {
 		for _, dt := range []uint16{1, 28} {
 			q := rules.NewRequestForHostname(h)
 			q.DNSType = dt
@@ -511,6 +512,25 @@ func c04CheckRule(c *Ctx, r c04Rule, qs []c04Req, sigKey string) (evals int64, p
 	}
 	if len(text)%3 != 0 {
 		order = order[:len(qs)] // two thirds of the rules see one order only (which one depends on the rule)
+	}
+	// the accessors say what is written: text, permitted domains (as a set), generic iff none
+	{
+		var wantDom []string
+		for _, d := range r.domains {
+			if !d.neg {
+				wantDom = append(wantDom, strings.ToLower(d.v))
+			}
+		}
+		gotDom := append([]string{}, nr.GetPermittedDomains()...)
+		for i := range gotDom {
+			gotDom[i] = strings.ToLower(gotDom[i])
+		}
+		if nr.Text() != text || nr.String() != text || nr.GetFilterListID() != 1 || !eqStrings(sortedSet(gotDom), sortedSet(wantDom)) || nr.IsGeneric() != (len(wantDom) == 0) || nr.Whitelist != r.exc {
+			c.Run.Violate(ev.Violation{Pred: "accessors-say-what-is-written", Sig: map[string]any{"rule": text},
+				What:   fmt.Sprintf("rule %q: Text()=%q String()=%q GetFilterListID()=%d GetPermittedDomains()=%v IsGeneric()=%v Whitelist=%v; written: permitted domains %v, exception %v", text, nr.Text(), nr.String(), nr.GetFilterListID(), nr.GetPermittedDomains(), nr.IsGeneric(), nr.Whitelist, wantDom, r.exc),
+				Replay: map[string]any{"rule": text, "slot": sigKey}})
+			return evals, true
+		}
 	}
 	for _, q := range order {
 		evals++
@@ -698,7 +718,7 @@ func c04Run(c *Ctx, qs []c04Req, only string) {
 	// pattern-target layer: which string the pattern is applied to (URL or bare
 	// hostname) for patterns that spell out, embed or omit the scheme
 	for _, pat := range []string{"|http://example.org^", "*://example.org^", "p://example.org", "http://example.org^", "https://example.org^", "://example.org^", "example.org^",
-		"/example.org.", "/exa_mple.org.", ".org/*", "||example.org^", "|example.org|", "example.org|", "ws://example.org", "|ads.sub", "EXAMPLE.org^"} {
+		"/example.org.", "/exa_mple.org.", "/ads1.", "/ad-server.", "/www.a.", "/1.", "/a_b.", ".org/*", "||example.org^", "|example.org|", "example.org|", "ws://example.org", "|ads.sub", "EXAMPLE.org^"} {
 		jobs = append(jobs, job{c04Rule{pattern: pat, denyallow: []string{"x.com"}}, "pattern-target"})
 		jobs = append(jobs, job{c04Rule{pattern: pat, matchCase: true, dnstypes: []nv{{"TXT", true}}}, "pattern-target"})
 		jobs = append(jobs, job{c04Rule{pattern: pat, notMatchCase: true}, "pattern-target"})
